@@ -40,7 +40,7 @@ class Result:
         self.samples = (self.samples + o.samples)[:8]
 
 
-STRUCT = ["size", "format", "frames", "layers", "frame", "layer", "byname", "iter", "tags", "tag",
+STRUCT = ["size", "format", "frames", "layers", "frame", "layer", "byname", "iter", "iterx", "tags", "tag",
           "gettag", "tagbyname", "slices", "slice", "key", "palette", "pal", "extfiles", "extfile",
           "tilesets", "tileset", "sprite_ud"]
 CELS = ["celA", "celB", "celC"]
@@ -203,7 +203,7 @@ def malformed_inputs(ctx, scale, rng):
     leg, _, gapbad = gap_index_cases(ctx, scale, 40 if ctx.quick else 400)
     base += gen + gen2 + leg[:20]
     n = (6000 if ctx.quick else 300000) * scale
-    files = vlib.verif_corpus() + gapbad
+    files = vlib.verif_corpus() + gapbad + structure_cases()
     files += vlib.sample_mutants(base, rng, n)
     files += vlib.noise_cases(base, rng, n // 6)
     if not ctx.quick and scale == 1:
@@ -223,6 +223,47 @@ def malformed_inputs(ctx, scale, rng):
             cid = f"{cid}#{len(out)}"
         seen[cid] = 1
         out.append((cid, b))
+    return out
+
+
+def structure_cases():
+    """EXHAUSTIVE small enumeration of the cross-references a file can get wrong: which tilesets
+    are present (with how many tiles), what a layer is (image / group / tilemap naming tileset
+    0, 1 or 7), and what cel sits on it (none, image, linked, tilemap of w x h tiles with tile
+    ids inside / outside the tileset, for w, h in 0..2)."""
+    import zlib
+    out = []
+    def tileset(tid, ntiles):
+        px = zlib.compress(bytes([50, 60, 70, 255]) * ntiles)
+        return mk_chunk(0x2023, struct.pack("<IIIHHh", tid, 2, ntiles, 1, 1, 1) + bytes(14) + struct.pack("<H", 0)
+                        + struct.pack("<I", len(px)) + px)
+    def layer(ltype, tsid):
+        b = struct.pack("<HHHHHHBBH", 1, ltype, 0, 0, 0, 0, 255, 0, 0) + struct.pack("<H", 1) + b"L"
+        if ltype == 2:
+            b += struct.pack("<I", tsid)
+        return mk_chunk(0x2004, b)
+    def tm_cel(w, h, ids):
+        z = zlib.compress(b"".join(struct.pack("<I", t) for t in ids))
+        return mk_chunk(0x2005, struct.pack("<HhhBH", 0, 0, 0, 255, 3) + bytes(7)
+                        + struct.pack("<HHHIIII", w, h, 32, 0x1fffffff, 0x20000000, 0x40000000, 0x80000000) + bytes(10) + z)
+    img_cel = mk_chunk(0x2005, struct.pack("<HhhBH", 0, 0, 0, 255, 0) + bytes(7) + struct.pack("<HH", 1, 1) + bytes([1, 2, 3, 255]))
+    cels = [("none", [])] + [("img", [img_cel])]
+    for w in range(3):
+        for h in range(3):
+            for fill in (0, 1, 2):
+                if w * h == 0 and fill:
+                    continue
+                cels.append((f"tm{w}x{h}f{fill}", [tm_cel(w, h, [fill] * (w * h))]))
+    tilesets = [("ts-", []), ("ts0n1", [tileset(0, 1)]), ("ts0n2", [tileset(0, 2)]), ("ts1n2", [tileset(1, 2)]),
+                ("ts0n0", [tileset(0, 0)]), ("ts0n2+1n1", [tileset(0, 2), tileset(1, 1)])]
+    layers = [("img", layer(0, 0)), ("grp", layer(1, 0)), ("tm0", layer(2, 0)), ("tm1", layer(2, 1)), ("tm7", layer(2, 7))]
+    for tn, ts in tilesets:
+        for ln, l in layers:
+            for cn, c in cels:
+                for order in (0, 1):
+                    # tileset chunks before or after the layer
+                    chunks = (ts + [l] if order == 0 else [l] + ts) + c
+                    out.append((f"xref/{tn}/{ln}/{cn}/{order}", mk_header(1, 2, 2) + mk_frame(chunks)))
     return out
 
 
@@ -1460,17 +1501,95 @@ def c16_run(ctx, scale):
     res = Result("loadable corpus and generated files: the whole-API observation computed from 16 threads sharing one "
                  "&AsepriteFile, repeated sequentially, and from a second load, in the release build and in the build with "
                  "overflow checks and debug assertions; oracle: all observations of one file are identical (also across the "
-                 "two builds); the harness asserts AsepriteFile: Send + Sync at compile time; "
+                 "two builds; the observation includes what util::PaletteMapper answers for every palette colour); call "
+                 "histories across sprites: load, observe and drop sprite A, then load and observe sprite B on the same thread "
+                 "must give B's fresh observation; the harness asserts AsepriteFile: Send + Sync at compile time; "
                  "distinct = distinct files")
     files = [(c, b) for c, b in vlib.corpus_files(max_size=9000) if c != "color-curve.aseprite"]
     for prof, nq, nt in (("struct", 40, 1500), ("render", 40, 1500), ("tiles", 25, 800)):
         fs, _ = vlib.gen_cases(prof, ctx.seed * 53 + scale, (nq if ctx.quick else nt) * scale)
         files += fs
     reqs = [f"THREADS {cid} {b.hex()} 16" for cid, b in files]
+    # call history across sprites: on one thread load + observe + drop A, then load and observe B
+    # (indexed sprites first: they are the ones that share palette machinery)
+    idx_files = [(c, b) for c, b in files if len(b) > 140 and b[12:14] == b"\x08\x00"]
+    for prof, nq, nt in (("indexed", 30, 600), ("indexedplain", 15, 300), ("legacyindexed", 10, 200)):
+        fs, _ = vlib.gen_cases(prof, ctx.seed * 59 + scale, (nq if ctx.quick else nt) * scale)
+        idx_files += fs
+    loadable_idx = idx_files
+    hist = {}
+    for k in range(len(loadable_idx)):
+        (ca, a), (cb, b) = loadable_idx[k], loadable_idx[(k + 1) % len(loadable_idx)]
+        hist[f"hist/{k}"] = (ca, a, cb, b)
+    # the same sprite with every palette colour changed (same shape, so the same allocation
+    # pattern), observed first: A' -> drop -> A
+    def recolour(b):
+        bb = bytearray(b)
+        changed = False
+        for kind, off, sz in vlib.walk_chunks(b):
+            if kind == "chunk:2019" and sz >= 26:
+                n, first, last = struct.unpack_from("<III", b, off + 6)
+                p = off + 6 + 20
+                for _ in range(min(n, 4096)):
+                    if p + 6 > off + sz:
+                        break
+                    flags = struct.unpack_from("<H", b, p)[0]
+                    for j in (2, 3, 4):
+                        bb[p + j] ^= 0x5a
+                    changed = True
+                    p += 6
+                    if flags & 1:
+                        if p + 2 > off + sz:
+                            break
+                        p += 2 + struct.unpack_from("<H", b, p)[0]
+            elif kind in ("chunk:0004", "chunk:0011") and sz >= 8:
+                np_ = struct.unpack_from("<H", b, off + 6)[0]
+                p = off + 8
+                for _ in range(np_):
+                    if p + 2 > off + sz:
+                        break
+                    cnt = b[p + 1] or 256
+                    p += 2
+                    for j in range(min(3 * cnt, off + sz - p)):
+                        bb[p + j] ^= 0x15
+                        changed = True
+                    p += 3 * cnt
+        return bytes(bb) if changed else None
+    for k, (cb, b) in enumerate(loadable_idx):
+        a = recolour(b)
+        if a is not None:
+            hist[f"histc/{k}"] = (cb + "(recoloured)", a, cb, b)
+    other = [f for f in files if f not in idx_files][:40]
+    for k in range(len(other)):
+        (ca, a), (cb, b) = other[k], other[(k + 1) % len(other)]
+        hist[f"histo/{k}"] = (ca, a, cb, b)
+    hreqs = [f"HISTORY {hid} {a.hex()} {b.hex()}" for hid, (ca, a, cb, b) in hist.items()]
     outs = {}
+    houts = {}
     for profile in ("release", "relchk"):
         outs[profile], _ = vlib.run_impl(reqs, profile)
-    model, _ = vlib.run_model(vlib.load_lines(files))
+        houts[profile], _ = vlib.run_impl(hreqs, profile)
+    model, _ = vlib.run_model(vlib.load_lines(files + [(hid, b) for hid, (ca, a, cb, b) in hist.items()]))
+    for hid, (ca, a, cb, b) in hist.items():
+        res.evaluations += 1
+        res.compared += 1
+        m = model.get(hid)
+        if vlib.outcome(m) != "ok":
+            continue
+        for prof in ("release", "relchk"):
+            o = houts[prof].get(hid)
+            if o is None:
+                raise vlib.Broken("no observation for " + hid)
+            bad = [l for l in o if l.startswith("differs") or "PANIC" in l or "panicked" in l]
+            plain = [l for l in o if not l.startswith("mapperx")]
+            if bad or plain != m:
+                what = bad[0][:400] if bad else "observation after a history differs from the model's: " + str(vlib.first_diff(m, plain))[:300]
+                res.oracle_failures.append({"id": hid, "what": f"[{prof}] after loading, observing and dropping sprite A ({ca}) on the "
+                                            f"same thread, sprite B ({cb}) is observed differently: {what}",
+                                            "input_hex": b.hex(), "history_first_input_hex": a.hex(),
+                                            "call": f"HISTORY {hid} <A> <B>", "build_profile": prof})
+                break
+    res.distribution["history_pairs"] = len(hist)
     res.sections = ALL
     for cid, data in files:
         res.evaluations += 1
@@ -1491,8 +1610,8 @@ def c16_run(ctx, scale):
         if fail:
             res.oracle_failures.append({"id": cid, "what": fail, "input_hex": data.hex(),
                                         "call": "THREADS (16 threads, repeated, second load), both build profiles"})
-        elif a != m:
-            d = vlib.first_diff(m, a)
+        elif [l for l in a if not l.startswith("mapperx")] != m:
+            d = vlib.first_diff(m, [l for l in a if not l.startswith("mapperx")])
             res.corr_diffs.append({"correspondence": "Ase model observation <-> concurrent observation of the implementation",
                                    "id": cid, "input_hex": data.hex(),
                                    "first_difference": {"line": d[0], "model": d[1][:300], "impl": d[2][:300]}})
